@@ -12,7 +12,7 @@ RELEVANT = {
     "C01": STRUCT | {"count", "value", "ident", "poison", "baddrop", "drops", "frees", "drain", "stray", "out", "overrun"},
     "C03": STRUCT | {"verdict", "count", "panicked", "seen"},
     "C04": STRUCT | {"count"},
-    "C05": {"layout", "frees", "alloc", "align", "size", "leak", "drops", "panicked", "baddrop", "overrun"},
+    "C05": {"layout", "frees", "alloc", "align", "size", "leak", "drops", "baddrop", "overrun", "drain", "poison"},
     "C06": STRUCT | {"value", "ident", "contents", "drops", "frees", "drain", "stray", "baddrop", "poison", "panicked", "count", "overrun"},
     "C07": STRUCT | {"baddrop", "drops", "frees", "drain", "poison", "count", "panicked", "stray", "value", "leak", "exit", "overrun"},
     "C08": STRUCT | {"verdict", "ncl", "seen", "value", "ident", "count", "stray", "drops", "frees", "panicked", "drain"},
@@ -57,7 +57,7 @@ UNWRAP = ["TryUnwrap", "IntoInner", "UnwrapOrClone"]
 
 def sized_cfg(ops, nslots, nblocks, maxframes, hows, emit=True, view="CanonView", countbits=8):
     return "\n".join([
-        "SPECIFICATION Spec",
+        "SPECIFICATION MCSpec",
         "CONSTANTS",
         "  NSlots = %d" % nslots,
         "  NBlocks = %d" % nblocks,
@@ -66,7 +66,7 @@ def sized_cfg(ops, nslots, nblocks, maxframes, hows, emit=True, view="CanonView"
         "  KeepHist = %s" % ("TRUE" if emit else "FALSE"),
         "  Hows = %s" % tla_set(hows),
         "  Ops = %s" % tla_set(ops),
-        "VIEW %s" % view,
+        "VIEW %s" % ("MCView" if view == "CanonView" else view),
         "INVARIANT Invariants",
         "PROPERTY ActionsOK",
         ("ACTION_CONSTRAINT Emit" if emit else ""),
@@ -105,7 +105,8 @@ def graph_replay(prop, tier, name, family, root, modules, cfg_text, nslots, harn
         if os.path.exists(p):
             os.remove(p)
     t0 = time.time()
-    r = subprocess.run([exe, "replay", family, out, str(nslots), prog, summ, "40"], cwd=wd,
+    cats = ",".join(sorted(RELEVANT.get(prop, {"*"}))) or "*"
+    r = subprocess.run([exe, "replay", family, out, str(nslots), prog, summ, "40", cats], cwd=wd,
                        stdout=subprocess.PIPE, stderr=subprocess.STDOUT, text=True, timeout=3600)
     res["replay_wall_s"] = round(time.time() - t0, 1)
     if r.returncode not in (0, 1) or not os.path.exists(summ):
